@@ -131,6 +131,13 @@ func startWatchdog(c *oracleCtx) {
 	go func() {
 		for {
 			time.Sleep(time.Second)
+			if time.Now().After(c.deadline.Add(90 * time.Second)) {
+				// the oracle is far beyond its budget (code under test that is slow on every input): what was found has
+				// been written out already, stop here
+				st, _ := json.Marshal(map[string]any{"kind": "stat", "stats": map[string]any{"cases": c.cases, "stopped-beyond-budget": 1}})
+				fmt.Fprintln(os.Stdout, string(st))
+				os.Exit(0)
+			}
 			wdMu.Lock()
 			if n := len(wdStack); n > 0 && time.Since(wdStack[n-1].since) > wdLimit {
 				rec := map[string]any{"kind": "violation", "property": c.pid, "class": "hang",
